@@ -140,7 +140,7 @@ def wf_scenarios(ctx):
                         task=dict(task="workflow", x=rng.randrange(1, 40), worker=worker),
                         stages=[dict(children=[dict(subs=[{}], rules=[rule])], gate=None),
                                 dict(children=[dict(subs=[{}])], gate=None)],
-                        timeout=240, crash=[label, nth, None], crash_in=keyp + "@" + worker))
+                        timeout=(480 if worker == "cf" else 240), crash=[label, nth, None], crash_in=keyp + "@" + worker))
     return out
 
 
